@@ -294,15 +294,23 @@ func c16ExtCondition(c *Ctx, fn *ssa.Function, what string) {
 		}
 		gs := normExpr(fn, c.exprGuardsOf(fn, in))
 		var j, y bool
+		other := false
 		for _, g := range gs {
-			if strings.HasPrefix(g, "path/filepath.Ext(path/filepath.Join(") && strings.HasSuffix(g, `!= ".json"`) {
-				j = true
+			if !strings.HasPrefix(g, "path/filepath.Ext(path/filepath.Join(") {
+				continue
 			}
-			if strings.HasPrefix(g, "path/filepath.Ext(path/filepath.Join(") && strings.HasSuffix(g, `!= ".yaml"`) {
+			switch {
+			case strings.HasSuffix(g, `!= ".json"`):
+				j = true
+			case strings.HasSuffix(g, `!= ".yaml"`):
 				y = true
+			default:
+				// a third extension treated as "already has one": newSpec, which decides the
+				// real file name, knows only .json and .yaml - write and remove would disagree
+				other = true
 			}
 		}
-		if j && y {
+		if j && y && !other {
 			ok = true
 		}
 	})
